@@ -367,3 +367,28 @@ func analyseGraph(store map[string]spectypes.Spec, root spectypes.Spec) graphFac
 	f.Imported = len(reach)
 	return f
 }
+
+// countImportVisits counts the spec lookups of a depth-first traversal that follows every import
+// path and stops descending at unknown specs and at specs already on the path (capped).
+func countImportVisits(store map[string]spectypes.Spec, root spectypes.Spec, limit int) int {
+	n := 0
+	path := map[string]bool{root.Index: true}
+	var visit func(s spectypes.Spec)
+	visit = func(s spectypes.Spec) {
+		for _, imp := range s.Imports {
+			if n >= limit {
+				return
+			}
+			n++
+			p, ok := store[imp]
+			if !ok || path[imp] {
+				continue
+			}
+			path[imp] = true
+			visit(p)
+			delete(path, imp)
+		}
+	}
+	visit(root)
+	return n
+}
